@@ -299,6 +299,60 @@ Theorem C08_ack_truncate : forall ranges delay e0 e1 ce maxSize,
 Proof. exact truncate_ack_fits. Qed.
 Print Assumptions C08_ack_truncate.
 
+(** Non-minimal varints (RFC 9000 section 16; seeded change C08-g): a field may be encoded in more
+    bytes than necessary ([vappend_len v w], w in {1,2,4,8}, [width_ok v w]).  The parsers accept EVERY
+    valid encoding of the fields, return the fields and leave exactly what follows — the consumed count
+    is what the encoding occupies, not the length of the shortest encoding. *)
+From V Require Import Wire.FramesWidthProofs.
+
+Theorem C08_varint_any_width : forall v w rest, width_ok v w -> vparse (vappend_len v w ++ rest) = inr (v, w, rest).
+Proof. exact vparse_any_width. Qed.
+Print Assumptions C08_varint_any_width.
+
+Theorem C08_frames_one_field_any_width : forall v w rest, width_ok v w ->
+  parse_max_data (vappend_len v w ++ rest) = Ok (FMaxData v, rest) /\
+  parse_data_blocked (vappend_len v w ++ rest) = Ok (FDataBlocked v, rest) /\
+  parse_retire_cid (vappend_len v w ++ rest) = Ok (FRetireConnectionID v, rest) /\
+  (forall uni, v <= W_MaxStreamCount ->
+     parse_max_streams uni (vappend_len v w ++ rest) = Ok (FMaxStreams uni v, rest) /\
+     parse_streams_blocked uni (vappend_len v w ++ rest) = Ok (FStreamsBlocked uni v, rest)).
+Proof. exact one_field_any_width. Qed.
+Print Assumptions C08_frames_one_field_any_width.
+
+Theorem C08_frames_two_fields_any_width : forall s ws v wv rest, width_ok s ws -> width_ok v wv ->
+  parse_max_stream_data (vappend_len s ws ++ vappend_len v wv ++ rest) = Ok (FMaxStreamData s v, rest) /\
+  parse_stream_data_blocked (vappend_len s ws ++ vappend_len v wv ++ rest) = Ok (FStreamDataBlocked s v, rest) /\
+  parse_stop_sending (vappend_len s ws ++ vappend_len v wv ++ rest) = Ok (FStopSending s v, rest).
+Proof. exact two_fields_any_width. Qed.
+Print Assumptions C08_frames_two_fields_any_width.
+
+Theorem C08_reset_stream_any_width : forall s ws e we fs wf rs wr rest,
+  width_ok s ws -> width_ok e we -> width_ok fs wf -> width_ok rs wr -> rs <= fs ->
+  parse_reset_stream false (vappend_len s ws ++ vappend_len e we ++ vappend_len fs wf ++ rest) = Ok (FResetStream s e fs 0, rest) /\
+  parse_reset_stream true (vappend_len s ws ++ vappend_len e we ++ vappend_len fs wf ++ vappend_len rs wr ++ rest)
+    = Ok (FResetStream s e fs rs, rest).
+Proof. exact reset_stream_any_width. Qed.
+Print Assumptions C08_reset_stream_any_width.
+
+Theorem C08_crypto_any_width : forall off wo data wl rest, width_ok off wo -> width_ok (zlen data) wl ->
+  parse_crypto (vappend_len off wo ++ vappend_len (zlen data) wl ++ data ++ rest) = Ok (FCrypto off data, rest).
+Proof. exact crypto_any_width. Qed.
+Print Assumptions C08_crypto_any_width.
+
+(** through ParseType and the dispatch: the reported count is 1 + the two widths, the rest is untouched *)
+Theorem C08_max_stream_data_consumed_any_width : forall c lvl s ws v wv rest,
+  width_ok s ws -> width_ok v wv -> type_allowed lvl FT_MaxStreamData = true ->
+  parse_next c lvl ([FT_MaxStreamData] ++ vappend_len s ws ++ vappend_len v wv ++ rest)
+  = Ok (FMaxStreamData s v, 1 + ws + wv, rest).
+Proof. exact max_stream_data_consumed_any_width. Qed.
+Print Assumptions C08_max_stream_data_consumed_any_width.
+
+Example C08_any_width_example :
+  width_ok 28 8 /\ vappend_len 28 8 = [192; 0; 0; 0; 0; 0; 0; 28] /\
+  parse_next (Cfg false false false 3) 4 ([17; 4] ++ [192; 0; 0; 0; 0; 0; 0; 28] ++ [1]) = Ok (FMaxStreamData 4 28, 10, [1]).
+Proof. exact any_width_example. Qed.
+Print Assumptions C08_any_width_example.
+
 (* ==== end frames ==== *)
 (* ==== tparams ==== *)
 (** Transport parameters (internal/wire/transport_parameters.go), model Wire/TParams.v.
